@@ -35,7 +35,8 @@ Definition ns0_prefixes (root : string) (l : lang) : bool :=
   | _ => false
   end.
 
-Definition NAMESPACE_SEPARATOR : ascii := ":"%char.
+(* WBXML_NAMESPACE_SEPARATOR (wbxml_internals.h): the separator handed to XML_ParserCreateNS *)
+Definition NAMESPACE_SEPARATOR : ascii := "|"%char.
 
 (* wbxml_tables_search_table *)
 Definition search_table (main : list lang) (public_id system_id root : option string) : option lang :=
@@ -48,7 +49,7 @@ Definition search_table (main : list lang) (public_id system_id root : option st
       match root with
       | None => None
       | Some r =>
-        (* index = 0; the namespace scan runs only when the root contains ':' and leaves index where it stopped *)
+        (* index = 0; the namespace scan runs only when the root contains '|' and leaves index where it stopped *)
         let '(found, index) := if str_has NAMESPACE_SEPARATOR r then scan_idx (ns0_prefixes r) main 0 else (None, O) in
         match found with
         | Some l => Some l
@@ -61,7 +62,7 @@ Definition search_table (main : list lang) (public_id system_id root : option st
 (* wbxml_tree_clb_xml.c: the DOCTYPE callback searches with (pubid, sysid, NULL) — it is not called at all
    when the document has no DOCTYPE, which gives the same result as two NULLs —; if that found nothing
    the start-element callback of the root searches with (NULL, NULL, localName).  localName is what Expat
-   delivers with namespace processing: "namespace:local" for a namespaced root. *)
+   delivers with namespace processing: "namespace|local" for a namespaced root. *)
 Definition xml_select (main : list lang) (public_id system_id : option string) (root : string) : option lang :=
   match search_table main public_id system_id None with
   | Some l => Some l
